@@ -5,6 +5,11 @@ ROOT = os.path.dirname(os.path.dirname(os.path.abspath(__file__)))
 CORE, BIN, PY3, BS, EXPR, CONT = 'construct/core.py', 'construct/lib/binary.py', 'construct/lib/py3compat.py', 'construct/lib/bitstream.py', 'construct/expr.py', 'construct/lib/containers.py'
 MUTANTS = [
     # id, property, file, old, new
+    ('array-parse-index-off', 'C07', CORE, "        for i in range(count):\n            context._index = i\n            e = self.subcon._parsereport(stream, context, path)", "        for i in range(count):\n            context._index = i + 1\n            e = self.subcon._parsereport(stream, context, path)"),
+    ('array-parse-count-off', 'C03', CORE, "        obj = ListContainer()\n        for i in range(count):\n            context._index = i\n            e = self.subcon._parsereport(stream, context, path)", "        obj = ListContainer()\n        for i in range(count + 1):\n            context._index = i\n            e = self.subcon._parsereport(stream, context, path)"),
+    ('array-build-len-check', 'C03', CORE, "        if not len(obj) == count:\n            raise RangeError(\"expected %d elements, found %d\" % (count, len(obj)), path=path)\n        discard = self.discard\n        retlist = ListContainer()\n        for i,e in enumerate(obj):\n            context._index = i\n            buildret = self.subcon._build(e, stream, context, path)\n            if not discard:\n                retlist.append(buildret)\n        return retlist\n\n    def _sizeof(self, context, path):\n        try:\n            count = evaluate(self.count, context)\n        except (KeyError, AttributeError):",
+     "        if len(obj) < count:\n            raise RangeError(\"expected %d elements, found %d\" % (count, len(obj)), path=path)\n        discard = self.discard\n        retlist = ListContainer()\n        for i,e in enumerate(obj):\n            context._index = i\n            buildret = self.subcon._build(e, stream, context, path)\n            if not discard:\n                retlist.append(buildret)\n        return retlist\n\n    def _sizeof(self, context, path):\n        try:\n            count = evaluate(self.count, context)\n        except (KeyError, AttributeError):"),
+    ('array-sizeof-plus', 'C05', CORE, "        return count * self.subcon._sizeof(context, path)\n\n    def _emitparse(self, code):\n        return f\"ListContainer(({self.subcon._compileparse(code)}) for i in range({self.count}))\"", "        return count + self.subcon._sizeof(context, path)\n\n    def _emitparse(self, code):\n        return f\"ListContainer(({self.subcon._compileparse(code)}) for i in range({self.count}))\""),
     ('lazy-relative-skip', 'C16', CORE, "        stream_seek(stream, offset + len, 0, path)\n        return execute", "        stream_seek(stream, len, 1, path)\n        return execute"),
     ('lazy-thunk-no-restore', 'C16', CORE, "            obj = self.subcon._parsereport(stream, context, path)\n            stream_seek(stream, fallback, 0, path)\n            return obj", "            obj = self.subcon._parsereport(stream, context, path)\n            return obj"),
     ('lazycontainer-no-restore', 'C16', CORE, "        parseret = self._struct.subcons[index]._parsereport(self._stream, self._context, self._path)\n        stream_seek(self._stream, fallback, 0, self._path)\n", "        parseret = self._struct.subcons[index]._parsereport(self._stream, self._context, self._path)\n"),
